@@ -145,6 +145,28 @@ func (c *Curve) recoverX(y *big.Int, sign uint) (*big.Int, bool) {
 	return x, true
 }
 
+// RecoverY solves the curve equation for y given x: y^2 = (1 - a*x^2) / (1 - d*x^2).
+// neg selects the other root. ok=false if x is not the abscissa of a curve point.
+func (c *Curve) RecoverY(x *big.Int, neg bool) (*big.Int, bool) {
+	x2 := c.mod(new(big.Int).Mul(x, x))
+	u := c.mod(new(big.Int).Sub(big.NewInt(1), new(big.Int).Mul(c.A, x2)))
+	v := c.mod(new(big.Int).Sub(big.NewInt(1), new(big.Int).Mul(c.D, x2)))
+	if v.Sign() == 0 {
+		return nil, false
+	}
+	y2 := c.mod(new(big.Int).Mul(u, new(big.Int).ModInverse(v, c.P)))
+	var y *big.Int
+	if y2.Sign() == 0 {
+		y = big.NewInt(0)
+	} else if y = new(big.Int).ModSqrt(y2, c.P); y == nil {
+		return nil, false
+	}
+	if neg && y.Sign() != 0 {
+		y.Sub(c.P, y)
+	}
+	return y, true
+}
+
 func (c *Curve) Identity() *Point { return &Point{big.NewInt(0), big.NewInt(1), big.NewInt(1)} }
 
 func (c *Curve) Base() *Point {
